@@ -187,18 +187,7 @@ def eval_clauses(eng, st, fid, clauses, extra=None):
     return out
 
 
-def norm_clauses(c):
-    if c is None:
-        return []
-    if isinstance(c, dict):
-        return list(c.items())
-    out = []
-    for i, x in enumerate(c):
-        if isinstance(x, (tuple, list)):
-            out.append((x[0], x[1]))
-        else:
-            out.append((f"c{i}", x))
-    return out
+from .unitdef import norm_clauses  # noqa: E402
 
 
 def cut_loop(eng, node, st, fid, spec, kind, iterv=None):
